@@ -358,9 +358,9 @@ def run(tier: str, seed: int):
         g, ds, txt = U.universe(tier, seed, U.EXT, quick_nodes=4, quick_limit=1200)
     else:
         g, ds, txt = U.universe(tier, seed, U.EXT, thorough_nodes=3)
-        ds += U.random_descrs(seed, U.EXT, 4, 8000) + U.random_descrs(seed, U.EXT, 5, 5000) + U.random_descrs(seed, U.EXT, 6, 3000) \
-            + U.random_descrs(seed, U.EXT, 7, 1500)
-        txt += '; 8000/5000/3000/1500 seeded random 4/5/6/7-node trees'
+        ds += U.random_descrs(seed, U.EXT, 4, 1800) + U.random_descrs(seed, U.EXT, 5, 1000) + U.random_descrs(seed, U.EXT, 6, 500) \
+            + U.random_descrs(seed, U.EXT, 7, 300)
+        txt += '; 1800/1000/500/300 seeded random 4/5/6/7-node trees'
     rng = __import__('random').Random(seed)
     nbad = 0
     for i, d in enumerate(ds):
@@ -378,8 +378,10 @@ def run(tier: str, seed: int):
             if tier == 'quick':       # full rest combinations without predicate, one combination otherwise
                 combos = [[], [1], [2, 1], [1, 2, 0]] if small and o['is_leaf'] is None else \
                     [REST_COMBOS[(i + len(o['namespace'])) % len(REST_COMBOS)]]
+            elif small:
+                combos = REST_COMBOS if o['is_leaf'] is None else [[], [1], [1, 2, 0]]
             else:
-                combos = REST_COMBOS if small else [REST_COMBOS[(i + len(o['namespace'])) % len(REST_COMBOS)], [1, 2]]
+                combos = [REST_COMBOS[(i + len(o['namespace'])) % len(REST_COMBOS)], [1, 2]]
             for combo in combos:
                 case = (tree, combo)
                 U.run_checks(col, PROP, [chk_map], src, case, lambda case=case: case_src(case), o, f'{tag} rest variants {combo}')
